@@ -55,21 +55,29 @@ func execC10(t *testing.T, sc *world.Scenario) (*oracle.Result, string) {
 	if !merge(oracle.C10(base), sc) {
 		return total, ""
 	}
-	// logger differential
-	dbg := *sc
-	dbg.Logger = "debug"
-	dobs := world.Run(t, &dbg)
-	if !merge(oracle.C10(dobs), &dbg) {
-		return total, ""
+	// logger differential: debug (every logging path) and one other level / handler
+	va := oracle.Vector(base)
+	logKinds := []string{"debug", "info", "warn", "error", "text"}
+	hsum := 0
+	for _, c := range sc.Hash() {
+		hsum += int(c)
 	}
-	va, vb := oracle.Vector(base), oracle.Vector(dobs)
-	if strings.Join(va, "\n") != strings.Join(vb, "\n") {
-		total.Fail("C10", "logging-changes-behaviour", -1, "the same history behaves differently with a debug logger:\n discard: %v\n debug:   %v", va, vb)
-		total.Replay = &dbg
-		return total, ""
-	}
-	if dobs.LogBytes > 0 {
-		total.Label("debug-log-written")
+	for _, lk := range []string{"debug", logKinds[1+hsum%4]} {
+		dbg := *sc
+		dbg.Logger = lk
+		dobs := world.Run(t, &dbg)
+		if !merge(oracle.C10(dobs), &dbg) {
+			return total, ""
+		}
+		vb := oracle.Vector(dobs)
+		if strings.Join(va, "\n") != strings.Join(vb, "\n") {
+			total.Fail("C10", "logging-changes-behaviour", -1, "the same history behaves differently with a %s logger:\n discard: %v\n %s:   %v", lk, va, lk, vb)
+			total.Replay = &dbg
+			return total, ""
+		}
+		if dobs.LogBytes > 0 {
+			total.Label(lk + "-log-written")
+		}
 	}
 	nops := len(base.Ops)
 	kinds := pickKinds(sc, 4)
@@ -82,7 +90,7 @@ func execC10(t *testing.T, sc *world.Scenario) (*oracle.Result, string) {
 			f.At = at
 			fsc := withFaults(sc, f)
 			if at%2 == 1 {
-				fsc.Logger = "debug" // half of the placements run with logging on
+				fsc.Logger = logKinds[(at/2+hsum)%len(logKinds)] // half of the placements run with logging on
 			}
 			obs := world.Run(t, fsc)
 			if p := oracle.HarnessProblem(obs); p != "" {
